@@ -22,13 +22,21 @@ VERIF = os.path.dirname(os.path.dirname(os.path.dirname(os.path.abspath(__file__
 REQUESTS_NEED_IMPL = True
 CHUNK = 400
 
-RULE = ('case kinds: sofia (formal table, backend, L_max, min_supp=p/q, stability-bound variant), sofia-mv (interval '
-        'many-valued table -> independent binarisation), rf (interval MV table + target + small forest parameters), '
-        'tree (numeric X, y, fitted DecisionTree/RandomForest).  Order: corpus -> exhaustive tables n,m<=3 x 3 backends '
-        'x L_max in 1..|Concepts|+2 x thresholds {0,1,2,0.3,0.5} x both bounds -> seeded random tables up to 7x7 -> MV '
-        'interval tables (point-valued and proper) -> forests on point-valued tables -> fitted trees/forests -> stream '
-        'rf-proper last (proper interval cells, known finding D19).  non-trivial = mixed table / more than one distinct value; '
-        'distinct = distinct full case')
+RULE = ('case kinds: sofia (formal table, backend, L_max, min_supp=p/q, stability-bound variant; optional names, optional '
+        'history), sofia-mv (interval many-valued table -> independent binarisation), rf (interval MV table + target + forest '
+        'parameters), tree (numeric X, y, fitted DecisionTree/RandomForest).  Order: corpus -> exhaustive tables n,m<=3 x 3 '
+        'backends x L_max in 1..|Concepts|+2 x thresholds {0,1,2,0.3,0.5} x both bounds -> seeded random tables up to 7x7 -> MV '
+        'interval tables (point-valued and proper) -> forests on point-valued tables -> fitted trees/forests -> degenerate '
+        '(first/last attribute shared by all / none / one object / copy of another, duplicate rows, constant columns, '
+        'duplicated names; L_max over 1..#concepts+1; min_supp as count incl. n, n+1 and as fraction; both bounds) -> big-shape '
+        '(13..70 objects; 13..70 attributes judged through the transposed table) -> h1-remine / h1-remine-mv (one context '
+        'object mined, changed through public setters - table data, object/attribute names, ps.data, pattern_structures - and '
+        'mined again; judged against the CURRENT content, names and hash) -> mv-values / rf-values (point-valued columns with '
+        'repeated values, values not representable in float32, values collapsing in float32, constant columns, duplicate '
+        'rows) -> trees-growth (max_leaf_nodes best-first numbering, min_samples_leaf, min_samples_split, bootstrap on/off, '
+        'n_jobs of the forest and of the parser, duplicate rows, constant columns; forests repeat node row sets) -> stream '
+        'rf-proper last (proper interval cells, known finding D19).  non-trivial = mixed table / more than one distinct '
+        'value; distinct = distinct full case')
 EXHAUSTIVE = {
     'quick': 'sofia: all 682 tables n,m<=3 x 3 backends x L_max in 1..|Concepts|+2 x min_supp in {0,1,2,0.3,0.5} x both '
              'stability bounds (ConceptLattice.from_context(algo=Sofia) built for every case of the default backend and for the '
@@ -171,6 +179,108 @@ def _rand_interval_table(rng, proper, nmax=5, kmax=2):
     return data
 
 
+VALUE_POOLS = {
+    'small': [0, 1, 2, 3],
+    'two': [5, 7],                                             # few values, many repetitions
+    'nonf32': [0.1, 0.2, 0.30000000000000004, 0.7],            # not representable in float32
+    'price': [19.98, 19.99, 20.0, 20.01],
+    'big': [2 ** 24, 2 ** 24 + 1, 2 ** 24 + 2, 2 ** 24 + 3],   # collapse in float32 (sklearn casts X to float32)
+    'neg': [-2.5, -1, 0, 1e-09, 3],
+    'const': [4.2],                                            # constant column
+}
+
+
+def _rand_point_table(rng, nmax=7, kmax=2):
+    """Point-valued interval table whose columns draw (with repetition) from a value pool each; sometimes a row
+    is duplicated.  Returns (data, pool names)."""
+    n, k = rng.randint(2, nmax), rng.randint(1, kmax)
+    pools = [rng.choice(sorted(VALUE_POOLS)) for _ in range(k)]
+    data = [[[v, v] for v in (rng.choice(VALUE_POOLS[pn]) for pn in pools)] for _ in range(n)]
+    if n > 2 and rng.random() < 0.4:
+        data[rng.randrange(n)] = [list(cell) for cell in data[rng.randrange(n)]]
+    return data, pools
+
+
+def _degenerate_table(rng, nmin=4, nmax=8, mmin=3, mmax=6):
+    """A table whose FIRST and/or LAST column is degenerate (shared by all objects / by none / by a single object /
+    a copy of another column), possibly with a constant column in the middle and duplicated rows."""
+    n, m = rng.randint(nmin, nmax), rng.randint(mmin, mmax)
+    d = rng.choice((0.35, 0.5, 0.7))
+    t = [[int(rng.random() < d) for _ in range(m)] for _ in range(n)]
+    where = rng.choice(('last', 'last', 'first', 'both', 'middle'))
+    pos = {'last': [m - 1], 'first': [0], 'both': [0, m - 1], 'middle': [rng.randrange(1, m - 1)] if m > 2 else [0]}[where]
+    shape = []
+    for j in pos:
+        kind = rng.choice(('all', 'all', 'none', 'none', 'single', 'copy'))
+        shape.append(f'{where}:{kind}')
+        src = rng.randrange(m)
+        g1 = rng.randrange(n)
+        for g in range(n):
+            t[g][j] = {'all': 1, 'none': 0, 'single': int(g == g1), 'copy': t[g][src]}[kind]
+    if rng.random() < 0.35:                       # duplicate rows
+        a, b = rng.randrange(n), rng.randrange(n)
+        t[a] = list(t[b])
+        shape.append('duprow')
+    if m > 3 and rng.random() < 0.25:             # a constant column somewhere inside
+        j = rng.randrange(1, m - 1)
+        v = rng.randrange(2)
+        for g in range(n):
+            t[g][j] = v
+        shape.append('constcol')
+    return t, shape
+
+
+def _lmax_range(nc, rng, full_upto=9):
+    """L_max in 1..#concepts+1 (complete when small, else the ends and a sample of the middle)."""
+    if nc <= full_upto:
+        return list(range(1, nc + 2))
+    mid = rng.sample(range(4, nc - 1), min(4, max(0, nc - 5)))
+    return sorted({1, 2, 3, nc - 1, nc, nc + 1, *mid})
+
+
+MS_COUNTS = [(0, 1), (1, 1), (2, 1), (3, 1)]
+MS_FRACTIONS = [(1, 4), (1, 2), (3, 4), (1, 10), (3, 10), (6, 10), (99, 100), (1, 3)]
+
+
+def _ms_choices(rng, n, k=3):
+    """min_supp as counts (incl. n and n+1) and as fractions; only thresholds the float arithmetic represents faithfully."""
+    pool = MS_COUNTS + [(n, 1), (n + 1, 1)] + MS_FRACTIONS
+    pool = [ms for ms in pool if float_threshold_ok(ms, n)]
+    cnt = [ms for ms in pool if ms[1] == 1]
+    fr = [ms for ms in pool if ms[1] != 1]
+    out = [rng.choice(cnt), rng.choice(fr)] + [rng.choice(pool) for _ in range(max(0, k - 2))]
+    res = []
+    for ms in out:
+        if ms not in res:
+            res.append(ms)
+    return res
+
+
+def _growth_params(rng, forest):
+    """Non-default growth parameters of sklearn trees / forests."""
+    p = dict(random_state=rng.randrange(10 ** 6))
+    mode = rng.choice(('leafnodes', 'leafnodes', 'minleaf', 'mix', 'depth', 'split', 'default'))
+    if mode in ('leafnodes', 'mix'):
+        p['max_leaf_nodes'] = rng.randint(2, 7)          # best-first growth: node numbering differs from depth-first
+    if mode in ('minleaf', 'mix'):
+        p['min_samples_leaf'] = rng.randint(2, 3)
+    if mode in ('depth', 'mix'):
+        p['max_depth'] = rng.randint(1, 4)
+    if mode == 'split':
+        p['min_samples_split'] = rng.randint(3, 5)
+        p['max_features'] = 1
+    if forest:
+        p['n_estimators'] = rng.randint(1, 4)
+        p['bootstrap'] = rng.random() < 0.5               # bootstrap off + all features: identical trees, every node set repeated
+        if rng.random() < 0.3:
+            p['n_jobs'] = 2
+    return p
+
+
+NAMES_A = ['o%d' % i for i in range(80)]
+NAMES_B = ['m%d' % i for i in range(80)]
+
+
 def _rand_target(rng, n):
     if rng.random() < 0.6:
         y = [rng.randrange(2) for _ in range(n)]
@@ -252,6 +362,109 @@ def gen(tier, seed, boost=False):
         # n_jobs: the extents must not depend on the number of parallel jobs (every 4th forest / 8th tree with 2 jobs)
         yield dict(stream='trees', kind='tree', model=model, X=X, y=y, params=params,
                    n_jobs=2 if (i % 8 in (2, 3, 7)) else 1)
+    # ---- (H3) degenerate first/last attribute, duplicate rows, constant columns; L_max over 1..#concepts+1;
+    #      min_supp as count and as fraction; both bounds; duplicated names
+    ndeg = 36 if tier == 'quick' else 300
+    for i in range(ndeg):
+        rows, shape = _degenerate_table(rng)
+        n, m = len(rows), len(rows[0])
+        nc = len(closed_extents(rows))
+        names = {}
+        if i % 5 == 0:                     # duplicated object / attribute names are accepted by the constructor
+            names = dict(objs=[NAMES_A[g // 2] for g in range(n)], attrs=[NAMES_B[j // 2] for j in range(m)])
+        be = rng.choice(BACKENDS)
+        for lmax in _lmax_range(nc, rng):
+            for ms in _ms_choices(rng, n, 3):
+                for log in (True, False):
+                    yield dict(stream='degenerate', kind='sofia', be=be, rows=rows, lmax=lmax, ms=list(ms), log=log,
+                               lat=(lmax % 3 == i % 3), shape=shape, **names)
+    # ---- (H3) shape extremes: >= 13 and > 64 objects (masks longer than one machine word), > 64 attributes
+    nbig = 10 if tier == 'quick' else 60
+    for i in range(nbig):
+        if i % 2 == 0:      # tall: few attributes, many objects
+            n, m = rng.choice((13, 16, 33, 65, 70)), rng.randint(2, 5)
+            rows = [[int(rng.random() < 0.6) for _ in range(m)] for _ in range(n)]
+            if rng.random() < 0.5:
+                for g in range(n):
+                    rows[g][m - 1] = 1
+            via = None
+        else:               # wide: few objects, > 64 attributes built from a few base columns, degenerate ends
+            n, m = rng.randint(3, 6), rng.choice((13, 65, 66, 70))
+            base = [[int(rng.random() < 0.55) for _ in range(n)] for _ in range(4)] + [[1] * n, [0] * n]
+            cols = [rng.choice(base) for _ in range(m)]
+            cols[-1] = rng.choice(([1] * n, [0] * n, cols[0]))
+            rows = [[cols[j][g] for j in range(m)] for g in range(n)]
+            via = 'T'
+        nc = len(closed_extents(rows))
+        for lmax in sorted({1, 3, max(1, nc // 2), nc + 1}):
+            for ms in _ms_choices(rng, n, 2):
+                for log in (True, False):
+                    c = dict(stream='big-shape', kind='sofia', be=rng.choice(BACKENDS), rows=rows, lmax=lmax,
+                             ms=list(ms), log=log, lat=True)
+                    if via:
+                        c['via'] = via
+                    yield c
+    # ---- (H1) the same context object mined twice, with a rename / data replacement through public setters in between
+    nh1 = 60 if tier == 'quick' else 400
+    for i in range(nh1):
+        rows, shape = _degenerate_table(rng, 3, 6, 2, 5) if i % 2 else (G.random_table(rng, 6, 5, 2, 2), ['random'])
+        n, m = len(rows), len(rows[0])
+        rows0 = [[int(rng.random() < 0.5) for _ in range(m)] for _ in range(n)]
+        mut = rng.choice((['data'], ['objnames', 'attrnames'], ['data', 'objnames'], ['data', 'attrnames', 'objnames'],
+                          ['attrnames']))
+        nc = len(closed_extents(rows))
+        for lmax in sorted({1, rng.randint(1, nc + 1), nc + 1}):
+            ms = rng.choice(_ms_choices(rng, n, 3))
+            yield dict(stream='h1-remine', kind='sofia', be=rng.choice(BACKENDS), rows=rows, lmax=lmax, ms=list(ms),
+                       log=rng.random() < 0.5, lat=True,
+                       objs=[NAMES_A[(g * 7 + i) % 80] + 'x' for g in range(n)] if 'objnames' in mut else None,
+                       attrs=[NAMES_B[(j * 3 + i) % 80] + 'y' for j in range(m)] if 'attrnames' in mut else None,
+                       hist=dict(rows0=rows0 if 'data' in mut else rows, mut=mut, lmax0=rng.randint(1, 4),
+                                 ms0=list(rng.choice(MS_COUNTS))))
+    for i in range(nh1 // 2):
+        data, pools = _rand_point_table(rng, 6, 2)
+        data0 = [[[v, v] for v in (rng.choice(VALUE_POOLS[pn]) for pn in pools)] for _ in data]
+        ps = [rng.choice(PS_NAMES) for _ in data[0]]
+        kind = 'sofia-mv' if i % 3 else 'rf'
+        c = dict(stream='h1-remine-mv', kind=kind, data=data, ps=ps, pools=pools,
+                 hist=dict(data0=data0, mut=rng.choice(('psdata', 'pslist'))))
+        if kind == 'rf':
+            c.update(y=_rand_target(rng, len(data)), params=_growth_params(rng, True))
+        else:
+            c.update(lmax=rng.randint(1, 6), ms=list(rng.choice(_ms_choices(rng, len(data), 3))), log=rng.random() < 0.5)
+        yield c
+    # ---- (H3) many-valued: point-valued interval columns with repeated values, values not representable in float32,
+    #      values that collapse in float32, constant columns, duplicated rows - through Sofia and through the forest
+    nval = 70 if tier == 'quick' else 500
+    for i in range(nval):
+        data, pools = _rand_point_table(rng)
+        ps = [rng.choice(PS_NAMES) for _ in data[0]]
+        nc = len(closed_extents(binarise(data)))
+        for lmax in sorted({1, 2, rng.randint(1, nc + 1), nc + 1}):
+            for ms in _ms_choices(rng, len(data), 2):
+                yield dict(stream='mv-values', kind='sofia-mv', data=data, ps=ps, pools=pools, lmax=lmax, ms=list(ms),
+                           log=rng.random() < 0.5)
+        for _k in range(2):
+            yield dict(stream='rf-values', kind='rf', data=data, ps=ps, pools=pools, y=_rand_target(rng, len(data)),
+                       params=_growth_params(rng, True))
+    # ---- (H3) trees / forests grown with non-default parameters (best-first numbering, min_samples_leaf, bootstrap
+    #      on/off, n_jobs), duplicate rows, constant columns; forests without bootstrap repeat every node row set
+    ngrow = 120 if tier == 'quick' else 700
+    for i in range(ngrow):
+        n, d = rng.randint(3, 14), rng.randint(1, 4)
+        X = [[rng.choice((rng.randrange(5), 0.1 * rng.randrange(4), 2 ** 24 + rng.randrange(3))[:1 + (i % 3)])
+              for _ in range(d)] for _ in range(n)]
+        if rng.random() < 0.5:
+            for _k in range(rng.randint(1, 3)):
+                X[rng.randrange(n)] = list(X[rng.randrange(n)])            # duplicate rows
+        if d > 1 and rng.random() < 0.3:
+            j = rng.randrange(d)
+            for r_ in X:
+                r_[j] = 1                                                   # constant column
+        model = ('rf-clf', 'tree-clf', 'rf-reg', 'tree-reg')[i % 4]
+        y = [rng.randrange(3) for _ in range(n)] if model.endswith('clf') else [rng.randrange(6) for _ in range(n)]
+        yield dict(stream='trees-growth', kind='tree', model=model, X=X, y=y,
+                   params=_growth_params(rng, model.startswith('rf')), n_jobs=2 if i % 5 == 0 else 1)
     # proper interval cells: own stream, LAST (known finding D19: node extents need not be closed; the runner stops
     # after 200 failing cases, so this stream is kept small and cannot cut off any other stream)
     nrp = 60 if tier == 'quick' else 240
@@ -264,15 +477,81 @@ def gen(tier, seed, boost=False):
 
 
 # ------------------------------------------------------------------------------------------------ implementation side
+def _bools(rows):
+    return [[bool(v) for v in r] for r in rows]
+
+
+def _build_formal(c):
+    """The context under test.  Plain cases share a cached (never mutated) object; cases with names or with a history
+    (H1) get a FRESH object: it is used once, changed through the public setters, and then used for the judged call."""
+    hist = c.get('hist')
+    if hist is None and not c.get('objs') and not c.get('attrs'):
+        return make_context(c['rows'], c['be'])
+    from fcapy.context import FormalContext
+    from fcapy.algorithms.concept_construction import sofia
+    from fcapy.lattice import ConceptLattice
+    if hist is None:
+        return FormalContext(data=_bools(c['rows']), object_names=c.get('objs'), attribute_names=c.get('attrs'),
+                             backend=c['be'])
+    K = FormalContext(data=_bools(hist['rows0']), backend=c['be'])
+    kw0 = dict(L_max=hist['lmax0'], min_supp=ms_value(hist['ms0']))
+    sofia(K, **kw0)                                   # first use: whatever is memoised is memoised now
+    [e for _, e in K.to_bin_attr_extents()]
+    K.n_bin_attrs, K.hash_fixed(), K.extension_i([]), K.intention_i([])
+    ConceptLattice.from_context(K, algo='Sofia', **kw0)
+    if 'data' in hist['mut']:
+        K.data.data = _bools(c['rows'])               # public setter of the table: same shape, new content
+    if c.get('objs'):
+        K.object_names = list(c['objs'])
+    if c.get('attrs'):
+        K.attribute_names = list(c['attrs'])
+    return K
+
+
+def _mutate_mv(K, c):
+    hist = c['hist']
+    if hist['mut'] == 'psdata':
+        for j, ps_ in enumerate(K.pattern_structures):
+            ps_.data = [tuple(row[j]) for row in c['data']]        # public setter of the pattern structure
+    else:
+        K.pattern_structures = make_mv(c['data'], c['ps'], c.get('y')).pattern_structures
+
+
+def _build_mv_sofia(c):
+    hist = c.get('hist')
+    if hist is None:
+        return make_mv(c['data'], c['ps'])
+    from fcapy.algorithms.concept_construction import sofia
+    K = make_mv(hist['data0'], c['ps'])
+    sofia(K, L_max=2, min_supp=1)
+    [e for _, e in K.to_bin_attr_extents()]
+    K.n_bin_attrs, K.hash_fixed(), K.to_numeric()
+    _mutate_mv(K, c)
+    return K
+
+
+def _names_ok(K, x, mv):
+    ext_ok = list(x.extent) == [K.object_names[g] for g in x.extent_i]
+    if mv:
+        int_ok = sorted(x.intent) == sorted(K.attribute_names[k] for k in x.intent_i)
+    else:
+        int_ok = list(x.intent) == [K.attribute_names[m] for m in x.intent_i]
+    return ext_ok and int_ok
+
+
 def _impl_sofia(c):
     from fcapy.algorithms.concept_construction import sofia
     from fcapy.lattice import ConceptLattice
     mv = c['kind'] == 'sofia-mv'
-    K = make_mv(c['data'], c['ps']) if mv else make_context(c['rows'], c['be'])
+    K = _build_mv_sofia(c) if mv else _build_formal(c)
     kw = dict(L_max=c['lmax'], min_supp=ms_value(c['ms']), use_log_stability_bound=c['log'])
+    h0 = K.hash_fixed()
     cs = sofia(K, **kw)
     out = dict(ok=[[canon_ext(x.extent_i), canon_pattern(x.intent_i) if mv else sorted(int(a) for a in x.intent_i)]
                    for x in cs])
+    out['pure'] = h0 == K.hash_fixed()          # mining must not change the context (names, data)
+    out['names_ok'] = all(_names_ok(K, x, mv) for x in cs)
+    out['hash_ok'] = all(x.context_hash == K.hash_fixed() for x in cs)
     if mv:
         out['mv_genuine'] = [canon_ext(K.extension_i(x.intent_i)) == canon_ext(x.extent_i)
                              and canon_pattern(K.intention_i(list(x.extent_i))) == canon_pattern(x.intent_i) for x in cs]
@@ -294,9 +573,19 @@ def _impl_sofia(c):
 def _impl_rf(c):
     from fcapy.algorithms.concept_construction import random_forest_concepts
     from fcapy.lattice import ConceptLattice
-    K = make_mv(c['data'], c['ps'], c['y'])
-    cs = random_forest_concepts(K, rf_params=dict(c['params']))
+    if c.get('hist'):
+        K = make_mv(c['hist']['data0'], c['ps'], c['y'])
+        random_forest_concepts(K, rf_params=dict(c['params']))     # first use
+        K.hash_fixed(), K.to_numeric()
+        _mutate_mv(K, c)
+    else:
+        K = make_mv(c['data'], c['ps'], c['y'])
+    h0, p_ = K.hash_fixed(), dict(c['params'])
+    cs = random_forest_concepts(K, rf_params=p_)
     out = dict(ok=[[canon_ext(x.extent_i), canon_pattern(x.intent_i)] for x in cs])
+    out['pure'] = h0 == K.hash_fixed() and p_ == dict(c['params'])    # neither the context nor the caller's dict changes
+    out['names_ok'] = all(_names_ok(K, x, True) for x in cs)
+    out['hash_ok'] = all(x.context_hash == K.hash_fixed() for x in cs)
     out['intent_ok'] = [canon_pattern(K.intention_i(list(x.extent_i))) == canon_pattern(x.intent_i) for x in cs]
     out['mv_closed'] = [canon_ext(K.extension_i(x.intent_i)) == canon_ext(x.extent_i) for x in cs]
     try:
@@ -314,7 +603,8 @@ def _impl_tree(c):
     with warnings.catch_warnings():
         warnings.simplefilter('ignore')    # joblib inside a worker process falls back to sequential execution (and says so)
         exts = parse_decision_tree_to_extents(mdl, X, n_jobs=int(c.get('n_jobs', 1)))
-    return dict(ok=[canon_ext(e) for e in exts], types=sorted({type(e).__name__ for e in exts}))
+    n_nodes = sum(e.tree_.node_count for e in mdl.estimators_) if hasattr(mdl, 'estimators_') else mdl.tree_.node_count
+    return dict(ok=[canon_ext(e) for e in exts], types=sorted({type(e).__name__ for e in exts}), n_nodes=int(n_nodes))
 
 
 def impl(c):
@@ -332,12 +622,18 @@ def impl(c):
 def requests(c, io):
     out = io.get('ok', []) if isinstance(io, dict) else []
     if c['kind'] == 'sofia':
-        return [dict(op='C15.sofia', be=SHORT[c['be']], rows=c['rows'], w=len(c['rows'][0]), lmax=c['lmax'],
-                     p=c['ms'][0], q=c['ms'][1], log=c['log'], out=out)]
+        rq = dict(op='C15.sofia', be=SHORT[c['be']], rows=c['rows'], w=len(c['rows'][0]), lmax=c['lmax'],
+                  p=c['ms'][0], q=c['ms'][1], log=c['log'], out=out)
+        if c.get('via'):
+            rq['via'] = c['via']
+        return [rq]
     if c['kind'] == 'sofia-mv':
         rows = binarise(c['data'])
-        return [dict(op='C15.sofia', be='bitarray', rows=rows, w=len(rows[0]), lmax=c['lmax'],
-                     p=c['ms'][0], q=c['ms'][1], log=c['log'], out=[[e, None] for e, _ in out])]
+        rq = dict(op='C15.sofia', be='bitarray', rows=rows, w=len(rows[0]), lmax=c['lmax'],
+                  p=c['ms'][0], q=c['ms'][1], log=c['log'], out=[[e, None] for e, _ in out])
+        if len(rows[0]) > len(rows):
+            rq['via'] = 'T'      # binarised tables are wide: concepts enumerated through the transposed table
+        return [rq]
     if c['kind'] == 'rf':
         import numpy as np
         from sklearn.ensemble import RandomForestRegressor, RandomForestClassifier
@@ -373,6 +669,10 @@ def judge(c, io, rep):
         tags = list(r['impl_fails'])
         if c['kind'] == 'sofia-mv' and not all(io['mv_genuine']):
             tags.append('mv-not-genuine')
+        if not io.get('names_ok', True):
+            tags.append('stale-names')
+        if not io.get('hash_ok', True):
+            tags.append('stale-context-hash')
         if 'err' in io['lattice']:
             tags.append('lattice-rejected:' + io['lattice']['err'])
         elif not io['lattice'].get('skipped') and (
@@ -381,6 +681,9 @@ def judge(c, io, rep):
         if tags:
             return _fail('property', f"sofia output {io['ok']} violates: {tags}; lattice={io['lattice']}", tags=tags)
         # ---- correspondence (model vs implementation) ----
+        if not io.get('pure', True):
+            return _fail('correspondence', 'sofia changed the context it was given (hash_fixed differs after the call)',
+                         tags=['context-mutated'])
         iexts = [e for e, _ in io['ok']]
         if c['kind'] == 'sofia-mv' and io['bin'] != binarise(c['data']):
             return _fail('correspondence', f"to_bin_attr_extents {io['bin']} differs from the independent binarisation "
@@ -406,11 +709,18 @@ def judge(c, io, rep):
         tags = list(r['impl_fails'])
         if not all(io['intent_ok']):
             tags.append('intent-not-prime')
+        if not io.get('names_ok', True):
+            tags.append('stale-names')
+        if not io.get('hash_ok', True):
+            tags.append('stale-context-hash')
         if tags:
             return _fail('property', f"random_forest_concepts returned non-genuine concepts {tags}: "
                                      f"non-closed (extent, closure) = {r['nonclosed']}", tags=tags)
         if not all(io['mv_closed']):
             return _fail('harness', 'MVContext closure and binarised closure disagree (C14 territory)')
+        if not io.get('pure', True):
+            return _fail('correspondence', 'random_forest_concepts changed the context or the rf_params dict it was given',
+                         tags=['context-mutated'])
         iexts = sorted(e for e, _ in io['ok'])
         mexts = sorted(e for e, _ in r['model'])
         if iexts != mexts:
@@ -447,6 +757,21 @@ def key(c):
 def branch(c, io, rep):
     out = [c['stream'], c['kind']]
     r = rep[0] if rep else {}
+    for sh in c.get('shape') or []:
+        out.append('shape:' + sh)
+    for pn in set(c.get('pools') or []):
+        out.append('pool:' + pn)
+    if c.get('hist'):
+        m_ = c['hist']['mut']
+        out.append('hist:' + (m_ if isinstance(m_, str) else '+'.join(sorted(m_))))
+    if c.get('via'):
+        out.append('via:' + c['via'])
+    if c.get('objs') and len(set(c['objs'])) < len(c['objs']):
+        out.append('duplicate-names')
+    if c['kind'] in ('sofia', 'sofia-mv') and c['ms'][1] != 1:
+        out.append('min_supp:fraction')
+    elif c['kind'] in ('sofia', 'sofia-mv'):
+        out.append('min_supp:count')
     if c['kind'] in ('sofia', 'sofia-mv'):
         out.append(('log' if c['log'] else 'stab') + (':never-binds' if r.get('never_binds') else ':binds'))
         out.append('lattice-built' if 'n' in io.get('lattice', {}) else 'lattice-not-built')
@@ -459,8 +784,16 @@ def branch(c, io, rep):
     elif c['kind'] == 'rf':
         out.append('proper' if is_proper(c['data']) else 'points')
         out.append('nonclosed' if r.get('nonclosed') else 'closed')
+        for k_ in ('max_leaf_nodes', 'min_samples_leaf', 'bootstrap', 'n_jobs'):
+            if k_ in c['params']:
+                out.append(f"rf-param:{k_}" + (f"={c['params'][k_]}" if k_ == 'bootstrap' else ''))
     else:
         out.append(c['model'])
+        for k_ in ('max_leaf_nodes', 'min_samples_leaf', 'bootstrap', 'n_jobs'):
+            if k_ in c['params']:
+                out.append(f"param:{k_}" + (f"={c['params'][k_]}" if k_ == 'bootstrap' else ''))
+        if 'ok' in io and io.get('n_nodes', 0) > len(io['ok']):
+            out.append('several-nodes-same-row-set')
     out.append('err' if 'err' in io else 'ok')
     return out
 
@@ -473,6 +806,17 @@ def signature(c, io, rep, v):
 
 
 def shrink(c):
+    if c.get('hist'):
+        # first try the same call on a fresh object (no history); the table of a history case is not shrunk
+        yield {k: v for k, v in c.items() if k != 'hist'}
+        if c['kind'] != 'rf' and c['lmax'] > 1:
+            yield dict(c, lmax=c['lmax'] - 1)
+        return
+    if c['kind'] == 'sofia' and (c.get('objs') or c.get('attrs')):
+        yield {k: v for k, v in c.items() if k not in ('objs', 'attrs')}
+        if c['lmax'] > 1:
+            yield dict(c, lmax=c['lmax'] - 1)
+        return
     if c['kind'] == 'sofia':
         yield from G.shrink_table_case(c)
         if c['lmax'] > 1:
